@@ -136,6 +136,23 @@ def build_scene(scene: dict, root: str, *, drop_meta: bool = False) -> dict | No
                 chunksize=scene.get("chunksize"), max_workers=1, **wl.column_kwargs(rec),
             )
             paths["wide"] = os.path.join(root, "wide")
+        if scene.get("many"):
+            # a catalog with hundreds of (tiny) patches, defined by a patch-index column: index
+            # arithmetic in the resampling code meets numbers it never sees with a handful of patches
+            npatch = int(scene["many"])
+            rng = np.random.default_rng(scene["data_seed"] + 4242)
+            m = 2 * npatch + int(rng.integers(0, npatch))
+            pid = np.concatenate([np.arange(npatch), np.arange(npatch), rng.integers(0, npatch, m - 2 * npatch)])
+            rec = dict(
+                ra=rng.uniform(10.0, 30.0, m), dec=rng.uniform(-10.0, 10.0, m),
+                w=rng.integers(1, 17, m) / 4.0, z=rng.uniform(edges[0], edges[-1], m),
+            )
+            df = wl.make_dataframe(rec, pid.astype("i4"))
+            yaw.Catalog.from_dataframe(
+                os.path.join(root, "many"), df, chunksize=scene.get("chunksize"), max_workers=1,
+                **wl.column_kwargs(rec, patch_name=True),
+            )
+            paths["many"] = os.path.join(root, "many")
     if drop_meta:
         strip_derived(root)
     return dict(paths=paths, centers=centers, records=records)
@@ -152,8 +169,9 @@ def strip_derived(root: str, *, meta: bool = True, trees: bool = True) -> None:
 def copy_scene(src_root: str, dst_root: str) -> dict[str, str]:
     shutil.copytree(src_root, dst_root)
     out = {name: os.path.join(dst_root, name) for name in CATS}
-    if os.path.isdir(os.path.join(dst_root, "wide")):
-        out["wide"] = os.path.join(dst_root, "wide")
+    for extra in ("wide", "many"):
+        if os.path.isdir(os.path.join(dst_root, extra)):
+            out[extra] = os.path.join(dst_root, extra)
     return out
 
 
@@ -187,4 +205,8 @@ def scene_config(scene: dict):
     spec = dict(scene["scale"])
     spec["edges"] = scene["edges"]
     spec["closed"] = scene["closed"]
+    if scene.get("method"):
+        spec["method"] = scene["method"]
+    if scene.get("rweight") is not None:
+        spec["rweight"], spec["resolution"] = scene["rweight"], scene.get("resolution", 8)
     return wl.make_config(spec)
